@@ -155,15 +155,9 @@ def perform(scn: Dict[str, Any], kind: str, wrap: bool = True, falsy: Any = Fals
                 break
             else:
                 problems.append("driver call kept raising")
-        # the handler log, consecutive repeats of the same exception object collapsed (the
-        # statement says "passes every exception to the handler", not "exactly once")
-        hl: List[Any] = []
-        last = None
-        for ex in handler_log:
-            if ex is last:
-                continue
-            last = ex
-            hl.append([ex.node, ex.k, ex.tok] if isinstance(ex, Boom) else ["foreign", 0, 0])
+        # the handler log as it is: one call per raise (an action is wrapped by exactly one catch layer
+        # of this scheduler, whichever scheduling method it went through)
+        hl: List[Any] = [[ex.node, ex.k, ex.tok] if isinstance(ex, Boom) else ["foreign", 0, 0] for ex in handler_log]
         return {"ran": ran, "handler": hl, "drives": drives, "problems": problems,
                 "handler_calls_raw": len(handler_log)}
     except vt_common.Hang:
@@ -190,9 +184,10 @@ def _classify(scn, e, got) -> Dict[str, Any]:
         return {"failure": "problem"}
     if got["handler"] != e["handler"]:
         missing = [h for h in e["handler"] if h not in got["handler"]]
+        repeated = [h for h in e["handler"] if got["handler"].count(h) > 1]
         deep = [h for h in missing if scn["depth"][h[0] - 1] >= 1]
         per = [h for h in missing if scn["kind"][h[0] - 1] == "per"]
-        return {"failure": "handler_calls", "missing_handler_calls": len(missing),
+        return {"failure": "handler_calls", "missing_handler_calls": len(missing), "repeated_handler_calls": len(repeated),
                 "missing_at_depth_ge1": len(deep), "missing_periodic": len(per)}
     esc_e = [d["esc"] for d in e["drives"]]
     esc_g = [d["esc"] for d in got["drives"]]
